@@ -44,6 +44,7 @@ type vPeer struct {
 	id       uint32
 	up       bool
 	refuse   bool // a dial fails (blocking dial that times out): DialContext returns (nil, error)
+	hang   bool // a blocking dial to this peer waits for its context (dial timeout) and then fails
 	reading  bool
 	readGate chan struct{} // closed while the peer reads
 	streams  []*vCliStream
@@ -116,6 +117,12 @@ func vstubDialContext(ctx context.Context, target string, opts ...grpc.DialOptio
 	}
 	if p.refuse {
 		vAtomicEnd()
+		return nil, errors.New("verif: dial timed out " + target)
+	}
+	if p.hang {
+		// a blocking dial to a peer that does not answer: waits out the dial timeout
+		vAtomicEnd()
+		<-ctx.Done()
 		return nil, errors.New("verif: dial timed out " + target)
 	}
 	vNet.conns[cc] = p
